@@ -181,7 +181,7 @@ func c09Run(r *simkit.Run) {
 	r.Sched(simkit.SchedOpts{MaxSteps: 100000, KeepGoing: true, MaxSim: r.Now() + 2*time.Second, Invariant: sample, Quanta: []time.Duration{100 * time.Millisecond}})
 	r.Try(sample)
 
-	if r.Live() > 0 {
+	if r.Unfinished() {
 		r.Fail("liveness", "states", "requesters did not finish")
 	}
 
